@@ -143,6 +143,17 @@ def r_coherence(idx, rep, rule="R-COHERENCE"):
             continue
         # attribute storing each ctor param (for substitution)
         stored_in = {e.id: a for a, e in attrs.items() if isinstance(e, ast.Name)}
+        # attributes that do NOT depend on the pose must not be changed by update_pose to something a fresh object would not have
+        for b, e in sorted(direct.items()):
+            if b in VISUAL_ONLY or b not in attrs:
+                continue
+            if _names(attrs[b]) & Q or pose in _names(e):
+                continue
+            mapping = {q: ast.Attribute(value=ast.Name(id="self", ctx=ast.Load()), attr=stored_in[q], ctx=ast.Load()) for q in _names(attrs[b]) if q in stored_in}
+            want = u(subst(attrs[b], mapping))
+            rep.check(u(e) in (want, "self." + b), rule, ck + "|%s is pose independent" % b, up.where,
+                      "update_pose sets self.%s = `%s`, but the constructor computes it as `%s` from pose-independent data: after update_pose the "
+                      "object differs from a freshly constructed one at the same pose" % (b, u(e), u(attrs[b])), "unchanged")
         for b, e in sorted(attrs.items()):
             dep = _names(e) & Q
             if not dep:
@@ -529,3 +540,72 @@ def r_closedset(idx, rep, rule="R-CLOSEDSET"):
                 key = "distance3d.containment_test::%s|%s axis" % (name, u(c)[:60])
                 rep.check(ax == [1], rule, key, "%s:%d" % (mod.relpath, c.lineno),
                           "reduction `%s` is not over axis=1: results of different points of the batch are mixed" % u(c)[:80], "axis=1")
+
+
+HINT_PARAMS = {"start_idx": "hill_climb_mesh_extreme(start_idx=...) only chooses where the hill climbing starts; for a convex mesh the result is "
+                            "start independent (assumption of C03's mesh clause, not decided here)"}
+
+
+def r_querystate(idx, rep, rule="R-QUERYSTATE"):
+    rep.rule(rule, "a support query answers from its arguments and the pose: state written by an earlier query (cached indices, "
+                   "memoised directions) may reach the returned value only as the documented START HINT of a search, never as the "
+                   "answer itself (a memo hit would survive update_pose and make the answer depend on the query history)", floor=2)
+    for mname in ("distance3d.mesh", "distance3d.colliders"):
+        m = idx.module(mname)
+        for ci in m.classes.values():
+            up = idx.find_method(ci, "update_pose")
+            if up is None:
+                continue
+            for qname in ("__call__", "support_function"):
+                q = ci.methods.get(qname)
+                if q is None or any("abstractmethod" in d for d in q.decorators):
+                    continue
+                # state written by query methods of this class
+                written = set()
+                for n in ast.walk(q.node):
+                    if isinstance(n, ast.Attribute) and isinstance(n.ctx, ast.Store) and u(n.value) == "self":
+                        written.add(n.attr)
+                key = "%s.%s|result independent of query-written state" % (ci.key, qname)
+                if not written:
+                    rep.ok(rule, key, q.where, "the query writes no state")
+                    continue
+                # backward slice of the returned expressions over local definitions
+                defs = {}
+                for st in iter_stmts(q.node.body):
+                    if isinstance(st, ast.Assign):
+                        for t in st.targets:
+                            for e in (t.elts if isinstance(t, ast.Tuple) else [t]):
+                                if isinstance(e, ast.Name):
+                                    defs.setdefault(e.id, []).append(st.value)
+                bad = []
+
+                def visit(node, seen):
+                    for n in ast.walk(node):
+                        if isinstance(n, ast.Call):
+                            callee = idx.resolve_call(m, n, ci)
+                            ps = callee.params() if callee is not None and hasattr(callee, "params") else []
+                            for i, a in enumerate(n.args):
+                                if isinstance(a, ast.Attribute) and u(a.value) == "self" and a.attr in written:
+                                    pn = ps[i] if i < len(ps) else None
+                                    if pn not in HINT_PARAMS:
+                                        bad.append("self.%s is passed to %s as `%s`" % (a.attr, call_name(n), pn))
+                                else:
+                                    visit(a, seen)
+                            for kw in n.keywords:
+                                visit(kw.value, seen)
+                            if isinstance(n.func, ast.Attribute):
+                                visit(n.func.value, seen)
+                            return
+                    for n in ast.walk(node):
+                        if isinstance(n, ast.Attribute) and u(n.value) == "self" and n.attr in written and isinstance(n.ctx, ast.Load):
+                            bad.append("self.%s is read directly" % n.attr)
+                        if isinstance(n, ast.Name) and n.id in defs and n.id not in seen:
+                            seen.add(n.id)
+                            for d in defs[n.id]:
+                                visit(d, seen)
+                for r in [s_ for s_ in iter_stmts(q.node.body) if isinstance(s_, ast.Return) and s_.value is not None]:
+                    visit(r.value, set())
+                rep.check(not bad, rule, key, q.where,
+                          "the value returned by %s.%s depends on state written by earlier queries (%s): a repeated query can return the cached answer of "
+                          "a previous pose / direction" % (ci.name, qname, "; ".join(sorted(set(bad))[:3])),
+                          "query-written state %s reaches the result only as a search start hint" % sorted(written))
